@@ -185,7 +185,11 @@ class World(object):
             # computed by a fresh interpreter that printed nothing else before
             self.model[key] = CLEAN_MODEL[key]
         if key not in self.model:
-            self.model[key] = [tuple(jsonable(f)) for f in make_printer(cfg, fresh=True)(self.trees[ti][1])]
+            try:
+                self.model[key] = [tuple(jsonable(f)) for f in make_printer(cfg, fresh=True)(self.trees[ti][1])]
+            except Exception as e:
+                raise Violation('fresh_printer_raises', {'config': list(cfg), 'tree': self.trees[ti][0][0][:200],
+                                                         'error': repr(e)[:200]})
         return self.model[key]
 
     def print_full(self, pi, ti):
@@ -195,7 +199,11 @@ class World(object):
         self.touched.add(ti)
         cfg, printer, dirty = self.printers[pi]
         exp = self.expected(cfg, ti)
-        got = [tuple(jsonable(f)) for f in printer(self.trees[ti][1])]
+        try:
+            got = [tuple(jsonable(f)) for f in printer(self.trees[ti][1])]
+        except Exception as e:
+            raise Violation('reused_printer_raises', {'config': list(cfg), 'tree': self.trees[ti][0][0][:200],
+                                                      'error': repr(e)[:200]})
         if got != exp:
             d = next((i for i, (a, b) in enumerate(zip(got, exp)) if a != b), min(len(got), len(exp)))
             raise Violation('reused_printer_output_differs', {
@@ -237,6 +245,9 @@ class World(object):
                 next(gen)
             except StopIteration:
                 break
+            except Exception as e:
+                raise Violation('reused_printer_raises', {'config': list(self.printers[pi][0]),
+                                                          'tree': self.trees[ti][0][0][:200], 'error': repr(e)[:200]})
         if close and hasattr(gen, 'close'):
             gen.close()
         del gen
@@ -275,6 +286,20 @@ class World(object):
             t = parse(src, with_comments=wc)
         except Exception:
             return
+        try:
+            a, b = self._shortcut_pair(src, kind, wc, t)
+        except Violation:
+            raise
+        except Exception as e:
+            raise Violation('shortcut_raises', {'kind': kind, 'source': src, 'error': repr(e)[:200]})
+        if a != b:
+            raise Violation('shortcut_differs', {'kind': kind, 'source': src, 'shortcut': a[:300], 'explicit': b[:300]})
+
+    def _shortcut_pair(self, src, kind, wc, t):
+        from calmjs.parse import es5
+        from calmjs.parse.parsers.es5 import parse
+        from calmjs.parse.unparsers.es5 import pretty_print, minify_print
+        from calmjs.parse.walkers import ReprWalker
         if kind == 'str':
             a, b = str(t), pretty_print(t)
             from calmjs.parse.walkers import Walker
@@ -302,8 +327,7 @@ class World(object):
             rw = ReprWalker()
             a = rw.walk(es5(src), pos=True)
             b = rw.walk(parse(src), pos=True)
-        if a != b:
-            raise Violation('shortcut_differs', {'kind': kind, 'source': src, 'shortcut': a[:300], 'explicit': b[:300]})
+        return a, b
 
     def check_invariant(self, full=False):
         # the trees touched by the last operation, plus one other in rotation (every tree when full)
@@ -382,7 +406,11 @@ def load_clean_model(root):
 STATS = {'histories': 0, 'steps': 0, 'interesting': set(), 'ops': {}, 'samples': []}
 
 SHORT_SRC = st.sampled_from([s for s, _ in SEED_SOURCES] + ['a = 1', 'function f(){}', 'x = [1,,2]', 'if (a) b; else c',
-                                                               '/*c*/ a; // d\n b', 'return a\nb', 'a / /re/', ''])
+                                                               '/*c*/ a; // d\n b', 'return a\nb', 'a / /re/', '',
+                                                               # characters Python treats as line breaks and ES5 does not;
+                                                               # CR / CRLF inside multi-line tokens
+                                                               'function f() { return\x0cx }', 'x\x0b++\x0by', 'a = "p\\\r\nq";',
+                                                               '/*a\r\nb*/ c; // d\x0ce\n f', 'a\r\nb\rc'])
 
 
 class Machine(RuleBasedStateMachine):
@@ -496,6 +524,16 @@ def run_shard(shard):
     except Violation as v:
         acc.fail(None, {'history': LAST.get('history', [])}, {'bucket': LAST.get('bucket', v.bucket),
                                                               'detail': LAST.get('detail', v.detail)}, opens)
+    except Exception as e:
+        # Hypothesis re-runs a failing history; when the code under test keeps state between calls the
+        # re-run can behave differently and the library reports that as an error of its own.  A violation
+        # that was observed is reported all the same (the replay file holds the history that showed it).
+        if not LAST.get('bucket'):
+            raise
+        acc.fail(None, {'history': LAST.get('history', [])},
+                 {'bucket': LAST['bucket'], 'detail': LAST.get('detail'),
+                  'note': 'observed once; a re-run of the same history behaved differently (%s)' % type(e).__name__},
+                 opens)
     acc.evaluations = STATS['histories']
     acc.nontrivial = set(STATS['interesting'])
     acc.samples = [{'history': h} for h in STATS['samples']]
